@@ -12,12 +12,14 @@ from concurrent.futures import ThreadPoolExecutor
 from pathlib import Path
 
 import corr_config as CC
+import corr_pyast as CP
 from common import rng
 
 ID = "C17"
 PROP_FILES = ["C17"]
 RULE = (
-    "correspondence: python classify() (with the command's cwd in HandlerContext) vs the model on option/script/argument lists over scratch files, from a hook cwd different from the command cwd "
+    "correspondence: SafetyAnalyzer.visit (violations in order: line, kind, detail; the import roots of the shadowing check) vs the Lean visitor on generated modules, hand-written snippets over every node class the visitor "
+    "has a method for, and a per-seed sample of the repository's and the standard library's own sources as a corpus of real syntax; python classify() (with the command's cwd in HandlerContext) vs the model on option/script/argument lists over scratch files, from a hook cwd different from the command cwd "
     "(the file analysed is recorded by wrapping analyze_python_file); the model's CPython argv grammar (pythonRuns) vs the real interpreter on marker scripts. "
     "search (T2): scripts generated from the safe-module set x access paths to dangerous functionality (aliasing, attribute chains through safe modules, string-based attribute lookup, operator/functools indirection, "
     "decorators, comprehensions, class bodies, format strings, subscripts of module dictionaries) x option placements; every approved command is executed in a child interpreter whose audit hook records and vetoes file, process, "
@@ -25,7 +27,8 @@ RULE = (
 )
 TRUSTED = ["T0 translator (flag tables, gates)", "T1 correspondence harness", "CPython 3.12 audit events stand for 'performs a file/process/network/dynamic-code operation' (PEP 578 coverage)"]
 ASSUMES = [
-    "the AST checker (SafetyAnalyzer) and CPython's run-time behaviour are not modelled in Lean: 'passes the checker => raises no dangerous audit event' is exercised on generated scripts, not proved",
+    "CPython's run-time behaviour is not modelled in Lean: 'passes the checker => raises no dangerous audit event' is exercised on generated scripts, not proved; what is proved about the checker is syntactic (Props/C17: approved_covers and its corollaries)",
+    "ast.parse is an oracle: the tree the visitor sees is the tree the harness serialises (class name, lineno, _fields in order)",
     "all safe-listed modules are imported before the hook is armed: their own import-time file reads are not attributed to the script",
 ]
 PY = "/venv/bin/python"
@@ -185,7 +188,8 @@ def corr_runs(model, r, n):
 
 def correspondence(ctx):
     k = 2 if ctx.broken else 1
-    return [corr_classify(ctx.model, rng("c17-cls"), ctx.scale(1500, 40000) * k), corr_runs(ctx.model, rng("c17-runs"), ctx.scale(200, 5000) * k)]
+    return [corr_classify(ctx.model, rng("c17-cls"), ctx.scale(1500, 40000) * k), corr_runs(ctx.model, rng("c17-runs"), ctx.scale(200, 5000) * k),
+            CP.corr_visit(ctx.model, rng("c17-visit"), ctx.scale(600, 20000) * k, ctx.scale(120, 1500) * k)]
 
 
 # ------------------------------------------------------------------ script generator
